@@ -56,8 +56,14 @@ const ALPHA_MB: &[&str] = &["a", "b", "c", "d", "ä", "中"];
 // pool clusters only: concatenations re-segment into themselves
 const ALPHA_G: &[&str] = &["a", "b", "c", "d", "ä", "e\u{301}", "👍🏽", "🇩🇪"];
 
+// grapheme mode, totality only: units that fuse with their neighbours (regional indicators, jamo,
+// a lone combining mark, a cluster ending in ZWJ)
+const ALPHA_H: &[&str] = &["a", "b", "🇩", "🇪", "\u{1100}", "\u{1161}", "\u{301}", "👩\u{200d}", "😀"];
+
 pub(crate) fn alpha(g: bool, mb: bool) -> &'static [&'static str] {
-    if g {
+    if g && mb {
+        ALPHA_H
+    } else if g {
         ALPHA_G
     } else if mb {
         ALPHA_MB
@@ -234,8 +240,8 @@ impl Prop for C15 {
     fn fuzz_decode(bytes: &[u8]) -> Option<Case> {
         crate::fuzzdec::c15(bytes)
     }
-    const RULE: &'static str = "words of 0-8 characters over a 4-letter alphabet (+ multi-byte letters; closed-pool clusters in grapheme mode) x non-empty subsets of {insert, delete, replace, swap} x the real context-table InsertEdits/ReplaceEdits providers with generated tables over the alphabet plus <bow>/<eow> (edit strings of 0-3 characters, weights 1-4) or always-matching mock providers x delete/swap predicates x exclusion sets x ChaCha8 seeds x chains of 1-6 edits feeding the exclusion set back in; optionally corrupt_spelling end to end on a sentence. Oracle: no panic (overflow checks on); for every step there must exist a single-edit explanation of an enabled kind reproducing both the new word and the new exclusion set; excluded characters keep their identity; exclusion set within the new word. Non-trivial: a step changed the word while the exclusion set was non-empty. Distinct = distinct serialised case.";
-    const ESSENTIAL: &'static [&'static str] = &["insert", "delete", "replace", "swap", "unchanged", "edit_at_0", "edit_at_last", "empty_word", "empty_replacement", "multi_char_insert", "chain>=3", "real_tables", "sentence"];
+    const RULE: &'static str = "words of 0-8 characters over a 4-letter alphabet (+ multi-byte letters; closed-pool clusters in grapheme mode, or - for `never panics` only - an alphabet of units that fuse with their neighbours) x non-empty subsets of {insert, delete, replace, swap} x the real context-table InsertEdits/ReplaceEdits providers with generated tables over the alphabet plus <bow>/<eow> (edit strings of 0-3 characters, weights 1-4) or always-matching mock providers x delete/swap predicates x exclusion sets x ChaCha8 seeds x chains of 1-6 edits feeding the exclusion set back in; optionally corrupt_spelling end to end on a sentence. Oracle: no panic (overflow checks on); for every step there must exist a single-edit explanation of an enabled kind reproducing both the new word and the new exclusion set; excluded characters keep their identity; exclusion set within the new word. Non-trivial: a step changed the word while the exclusion set was non-empty. Distinct = distinct serialised case.";
+    const ESSENTIAL: &'static [&'static str] = &["insert", "delete", "replace", "swap", "unchanged", "edit_at_0", "edit_at_last", "empty_word", "empty_replacement", "multi_char_insert", "chain>=3", "real_tables", "sentence", "unstable_totality"];
 
     fn budget(tier: Tier) -> Budget {
         match tier {
@@ -278,13 +284,13 @@ impl Prop for C15 {
     fn assumptions() -> Vec<String> {
         vec![
             "insert at i needs i and i-1 outside the exclusion set (an excluded character is not used as the left context of an insertion), replace/delete at i need i outside it, swap needs i and i+1 outside it".into(),
-            "grapheme mode uses closed-pool clusters only, so concatenation never re-segments (KF4 is the recorded finding outside that domain)".into(),
+            "grapheme mode asserts the single-edit explanation on closed-pool clusters only, where concatenation never re-segments (KF4 is the recorded finding outside that domain); words and edit strings over units that fuse are run for `never panics`".into(),
             "harness built with overflow-checks = true, like `cargo test`".into(),
             "end-to-end corrupt_spelling: totality, determinism in (text, seed), and word-count bound only".into(),
         ]
     }
 
-    fn check(c: &Case, _strict: bool) -> Outcome {
+    fn check(c: &Case, strict: bool) -> Outcome {
         let mut out = Outcome::new();
         let g = c.graphemes;
         let ins_real = InsertEdits {
@@ -329,6 +335,19 @@ impl Prop for C15 {
             }
         }
         let eff = Case { kinds, ..c.clone() };
+        // grapheme mode with units outside the closed pool: concatenation re-segments, the
+        // single-edit explanation is not defined (KF4 lives there); such cases run for "never
+        // panics" only, with the returned exclusion set clipped to the new word before it is fed back
+        let in_pool = |t: &str| gen::clusters(t, true).iter().all(|u| ALPHA_G.contains(u) || gen::CLOSED_POOL.contains(u));
+        let totality_only = g
+            && !strict
+            && !(in_pool(&c.word)
+                && c.tables.insert.iter().all(|(_, e)| e.iter().all(|(t, _)| in_pool(t)))
+                && c.tables.replace.iter().all(|(_, e)| e.iter().all(|(t, _)| in_pool(t))));
+        if totality_only {
+            out.label("unstable_totality");
+            out.label("kf4_class_excluded_from_explanation");
+        }
         for step in 0..c.chain {
             let before = word.clone();
             let before_e = excl.clone();
@@ -360,6 +379,11 @@ impl Prop for C15 {
             };
             let e2: BTreeSet<usize> = e2.into_iter().collect();
             let n2 = gen::clusters(&w2, g).len();
+            if totality_only {
+                word = w2;
+                excl = e2.into_iter().filter(|x| *x < n2).collect();
+                continue;
+            }
             ensure!(out, e2.iter().all(|x| *x < n2), "step {step}: exclusion set {e2:?} not within the new word {w2:?} ({n2} characters); before: {before:?} {before_e:?}");
             let Some(kind) = explain(&eff, &before, &before_e, &w2, &e2) else {
                 out.fail(format!(
